@@ -11,7 +11,7 @@ use super::{
     TSetIdentifier, TStructIdentifier, TType, ThriftException, ZERO_COPY_THRESHOLD,
     error::ProtocolExceptionKind,
     new_protocol_exception,
-    rw_ext::{ReadExt, WriteExt},
+    rw_ext::{ReadExt, WriteExt, split_to_checked},
 };
 
 const VERSION_LE: u32 = 0x88880000;
@@ -858,7 +858,7 @@ impl TInputProtocol for TBinaryProtocol<&mut Bytes> {
     fn read_bytes(&mut self) -> Result<Bytes, ThriftException> {
         let len = self.trans.read_i32_le()?;
         // split and freeze it
-        Ok(self.trans.split_to(len as usize))
+        Ok(split_to_checked(self.trans, len as usize)?)
     }
 
     #[inline]
@@ -868,7 +868,7 @@ impl TInputProtocol for TBinaryProtocol<&mut Bytes> {
                 std::slice::from_raw_parts(ptr, len)
             }))
         } else {
-            Ok(self.trans.split_to(len))
+            Ok(split_to_checked(self.trans, len)?)
         }
     }
 
@@ -913,7 +913,7 @@ impl TInputProtocol for TBinaryProtocol<&mut Bytes> {
     #[inline]
     fn read_faststr(&mut self) -> Result<FastStr, ThriftException> {
         let len = self.trans.read_i32_le()? as usize;
-        let bytes = self.trans.split_to(len);
+        let bytes = split_to_checked(self.trans, len)?;
         unsafe { Ok(FastStr::from_bytes_unchecked(bytes)) }
     }
 
@@ -962,7 +962,7 @@ impl TInputProtocol for TBinaryProtocol<&mut Bytes> {
     #[inline]
     fn read_bytes_vec(&mut self) -> Result<Vec<u8>, ThriftException> {
         let len = self.trans.read_i32_le()? as usize;
-        Ok(self.trans.split_to(len).into())
+        Ok(split_to_checked(self.trans, len)?.into())
     }
 
     #[inline]
